@@ -651,3 +651,43 @@ func vRefCycles() (int, []string) {
 
 //@ bounded vRefCycles svg.Parse and Draw on every reference graph over two markers, two clip paths and two masks (16 graphs each incl. self loops and two-cycles), and on every pair of files whose <use> points to nothing, itself, the other file, an element of either or a missing file (49 graphs): returns without panicking or exhausting the stack
 //@   props C18 C01
+
+// ---------------------------------------------------------------------------
+// bounded stand-in (C01 / C18): bounding boxes of path segments with NON-FINITE coordinates. The contracts treat
+// floats as reals: overflowing relative commands (`M 3e38 0 l 3e38 0`) give infinite current points, and
+// Inf - Inf is NaN, which no real-valued obligation sees (`x != x` is false of every real). vBezierBoxes runs
+// computeBezierBoundingBox on every line and on every cubic curve whose coordinates are taken from zero, one,
+// minus one, the largest float32, both infinities and NaN: it must return (any rectangle) and never panic.
+func vBezierBoxes() (n int, fails []string) {
+	inf := Fl(math.Inf(1))
+	vals := []Fl{0, 1, -1, math.MaxFloat32, inf, -inf, Fl(math.NaN())}
+	try := func(name string, c bezier) {
+		n++
+		defer func() {
+			if r := recover(); r != nil && len(fails) < 5 {
+				fails = append(fails, fmt.Sprintf("%s %v: panic: %v", name, c, r))
+			}
+		}()
+		computeBezierBoundingBox(c)
+	}
+	for _, a := range vals {
+		for _, b := range vals {
+			for _, c := range vals {
+				for _, d := range vals {
+					try("line", lineBezier{{a, b}, {c, d}})
+					for _, e := range vals {
+						for _, f := range vals {
+							// the y coordinates of the control points follow the x coordinates of the end points
+							try("cubic", cubicBezier{{a, b}, {e, f}, {f, e}, {c, d}})
+							try("cubic", cubicBezier{{a, b}, {e, a}, {c, f}, {c, d}})
+						}
+					}
+				}
+			}
+		}
+	}
+	return n, fails
+}
+
+//@ bounded vBezierBoxes computeBezierBoundingBox on every line and on 235 298 cubic curves over seven coordinate values (0, 1, -1, the largest float32, +Inf, -Inf, NaN): returns without panicking
+//@   props C01 C18
